@@ -14,10 +14,10 @@ RULESETS = {
     "C01": {"P1", "P2", "P3", "PANIC"},
     "C02": {"L1", "L2", "L3", "PANIC"},
     "C04": {"P1", "P2", "R2", "R3", "R6", "PANIC"},
-    "C05": {"S1", "S2", "S3", "S4", "S5", "S6"},
-    "C17": {"T1", "T2", "T3"},
-    "C13": {"Q1", "Q2"},
-    "C08": {"K2", "K3"},
+    "C05": {"S1", "S2", "S3", "S4", "S5", "S6", "PANIC"},
+    "C17": {"T1", "T2", "T3", "PANIC"},
+    "C13": {"Q1", "Q2", "PANIC"},
+    "C08": {"K2", "K3", "PANIC"},
 }
 
 
